@@ -37,7 +37,8 @@
    pre-expansion (ArgOrder = "any" explores all orders; FinalAgree compares
    with the left-to-right result computed by the functional definition
    RefExpand), PrintedFaithful (C19) and <>Finished under weak fairness.
-   Generation (Macro_gen.cfg): one NDJSON line per finished behaviour.      *)
+   Generation (Macro_gen.cfg): one NDJSON line per finished behaviour.
+   Hide-set rule: HideSet.tla (shared with MacroTrace.tla, the H3 trace spec).  *)
 EXTENDS Integers, Sequences, SequencesExt, FiniteSets, TLC, Json, CSV, IOUtils, MacroFamilies, HideSet
 
 CONSTANTS Family,     \* "F1" .. "F6", "P", "PT" : which enumerated family of inputs
